@@ -44,4 +44,5 @@ package main
 //@   ensures [payload-is-the-request-body] delta(SandboxInvoke) == 1 ==> readerContent(lastarg(SandboxInvoke, 2).Payload) == readerContent(r.Body) && readerLen(lastarg(SandboxInvoke, 2).Payload) == readerLen(r.Body) && typeis(lastarg(SandboxInvoke, 1), *ResponseWriterProxy) && fresh(proxyOf(lastarg(SandboxInvoke, 1))) && fresh(lastarg(SandboxInvoke, 2))
 //@   ensures [answer-is-what-the-sandbox-wrote] delta(SandboxInvokeOK) == 1 ==> ghost(httpLastWriter) == ref(w) && ghost(httpLastContent) == contentOf(proxyOf(lastarg(SandboxInvoke, 1)).Body) && ghost(httpLastLen) == len(proxyOf(lastarg(SandboxInvoke, 1)).Body) && ghost(httpWrites) == old(ghost(httpWrites)) + 1 && (proxyOf(lastarg(SandboxInvoke, 1)).StatusCode != 0 ==> ghost(httpStatus) == proxyOf(lastarg(SandboxInvoke, 1)).StatusCode)
 //@   ensures [failure-is-502-with-the-sandbox-body] delta(SandboxInvokeDoneFailed) == 1 ==> ghost(httpStatus) == 502 && ghost(httpLastContent) == contentOf(proxyOf(lastarg(SandboxInvoke, 1)).Body) && ghost(httpWrites) == old(ghost(httpWrites)) + 1
+//@   ensures [timeout-is-answered-once-with-the-timeout-message-only] delta(SandboxInvokeTimedOut) == 1 ==> ghost(httpWrites) == old(ghost(httpWrites)) + 1 && ghost(httpLastWriter) == ref(w) && ghost(httpWriteHeaders) == old(ghost(httpWriteHeaders))
 //@   ensures [one-body-per-request] ghost(httpWrites) <= old(ghost(httpWrites)) + 1
